@@ -580,3 +580,23 @@ contract(S + "split#into")(_split_variant(
     {"library": "WF(library)"},
     "WF(result) and same(result, library)",
     ["@content(library._blocks)", "@content(library._entries_by_key)", "@content(library._strings_by_key)"]))
+
+
+# ---- a brace-enclosed value is read back as one field value (mark level; used by C05 / C10's re-parse clauses) -----------
+
+lemma("braced-value-state", uses_marks=True,
+      doc="inside a brace-enclosed value whose inner braces never close more than was opened, the field-value scanner is "
+          "never inside quotes, counts no quoted braces, and its open-brace count is one more than the inner balance",
+      vars={"k0": "int", "b": "int"},
+      requires=["0 <= k0", "mk(k0) == 1", "k0 + 1 <= b <= NMARKS()", "forall(j, k0 + 1 <= j < b, bal(k0 + 1, j) >= 0)"],
+      ensures="fq(k0, b, False, 0) == False and fqc(k0, b, False, 0) == 0 and foc(k0, b, False, 0) == 1 + bal(k0 + 1, b)",
+      induction=("b", "k0 + 1"), props=("C05", "C10"))
+
+lemma("braced-value-is-one-field", uses_marks=True, uses_lemmas=["braced-value-state"],
+      doc="a value written as '{' v '}' with v brace-balanced (never negative, zero at the end) and free of '@' marks, followed "
+          "by a comma, is read as exactly one field value: the scan that starts at the '{' stops at that comma and nowhere before",
+      vars={"k0": "int", "r": "int"},
+      requires=["0 <= k0 < r", "r + 1 < NMARKS()", "mk(k0) == 1", "mk(r) == 2", "mk(r + 1) == 4",
+                "forall(j, k0 + 1 <= j <= r, bal(k0 + 1, j) >= 0)", "bal(k0 + 1, r) == 0", "no_block_start(k0, r + 1)"],
+      ensures="field_stop(k0, r + 1, False, 0) and forall(j, k0 <= j <= r, not field_stop(k0, j, False, 0))",
+      props=("C05", "C10"))
